@@ -311,6 +311,11 @@ def peAhead (rows : Array Row) (fl : Array Nat) (line : Nat) : Nat → Nat → (
         else if lr.pe then (ai, ahead)
         else peAhead rows fl line fuel (ahead + 1) cur
 
+/-- the look-ahead as `find_closest_place` runs it from the starting row `r` (repaired by a `fix:` commit: it used to look
+ahead even when `r` itself is a prologue_end row, and then jumped over it): nothing to look for when `r.pe`. -/
+def peAheadFrom (rows : Array Row) (fl : Array Nat) (r : Row) (fuel ahead : Nat) (cur : Nat × Nat) : Nat × Nat :=
+  if r.pe then cur else peAhead rows fl r.line fuel ahead cur
+
 /-- the `while i < file_lines.len()` loop of one (unit, file); `acc` = `suitable_places_in_unit`
 as (row index, row); `fuel` bounds the number of iterations. -/
 def suitableLoop (rows : Array Row) (fl : Array Nat) (needle : Nat) :
@@ -327,7 +332,7 @@ def suitableLoop (rows : Array Row) (fl : Array Nat) (needle : Nat) :
         | [] =>
           if r.line != needle || !r.stmt then suitableLoop rows fl needle fuel (i + 1) acc
           else
-            let (li, i') := peAhead rows fl r.line (fl.size - i) (i + 1) (lineIdx, i)
+            let (li, i') := peAheadFrom rows fl r (fl.size - i) (i + 1) (lineIdx, i)
             match rows[li]? with
             | some r' => suitableLoop rows fl needle fuel (i' + 1) [(li, r')]
             | none => suitableLoop rows fl needle fuel (i' + 1) acc
